@@ -111,10 +111,13 @@ def judge_c04(prop, spec_name, ch, case, which, res):
         counts["shape-problem(C01/C02/C05)"] += 1
         return out
     want = (O.signs(res["np_val"])[:, None] * F) * O.signs(res["x"])[None, :]
-    scale = max(1.0, float(onp.nanmax(onp.abs(want))) if want.size else 1.0)
+    fin = want[onp.isfinite(want)]
+    scale = max(1.0, float(onp.max(onp.abs(fin))) if fin.size else 1.0)
     with onp.errstate(all="ignore"):
-        err = float(onp.nanmax(onp.abs(R - want))) / scale if want.size else 0.0
         bad_nan = bool(onp.any(onp.isnan(R) != onp.isnan(want)))
+        d = onp.abs(R - want)
+        d[onp.isnan(R) & onp.isnan(want)] = 0.0       # NaN in both modes alike: C01/C02 judge the NaN itself
+        err = float(onp.max(d)) / scale if want.size else 0.0
     out["nontrivial"] = bool(want.size > 1 and onp.any(want != 0))
     out["outcome"] = "adjoint"
     out["sample"] = dict(choices=list(ch.choices), prim=case.name, expr=case.expr, argnum=W.base_features(case, which)["argnum"],
@@ -225,7 +228,7 @@ def judge_c06(prop, spec_name, ch, case, which, res):
         obs["plain"] = res["ag_plain"]
     for mode in ("rev", "fwd"):
         r = res.get(mode)
-        if r is not None and "exc" not in r:
+        if r is not None and ("exc" not in r or "val" in r):
             obs[mode] = r["val"]
             if r.get("box_in_result"):
                 out["v"].append(W.mk_violation(prop, spec_name, ch, case, which, mode, "box-in-derivative", "tracer object in result", None))
